@@ -181,6 +181,8 @@ CLAIMED["C13"]["text"] += (" can_redirect_auth_header itself (same host, and sam
                            "URIs (c13_code_can_redirect_auth_header, c13_code_can_redirect_auth_header_spec; proofs/Gen2_equiv_auth.v).")
 CLAIMED["C10"]["text"] += (" The vector behind the list, src/util.rs ArrayVec::push / truncate / deref, is translated too; on the visible part its push appends and it panics exactly when full: the model's push_reason "
                            "(c10_code_arrayvec_push, c10_code_arrayvec_push_any; proofs/Gen2_equiv_arrayvec.v).")
+CLAIMED["C09"]["text"] += (" So are the tests behind the other can_proceed functions: Phase::is_prelude / is_body, the is_finished functions of the three calls, the guard of do_into_receive, Call::into_body, "
+                           "Flow<SendRequest>::can_proceed (c09_code_phase_tests, c09_code_is_finished, c09_code_do_into_receive, c09_code_into_body, c09_code_send_request_can_proceed; proofs/Gen2_equiv_small_proceed.v).")
 for _p in ("C02", "C03", "C04", "C06", "C07", "C08", "C09", "C10", "C11", "C12", "C13", "C16", "C17"):
     CLAIMED[_p]["technique"] += " + the code's own functions translated to Gallina on every run and proved equivalent to the model"
 
